@@ -322,6 +322,38 @@ func InPlaceNames(r *rng.R, e *Entry) {
 	}
 }
 
+// OptionalFields adds ONNX fields an inference runtime may ignore (the pinned tree does): a training_info entry whose
+// update_binding would overwrite a float32 weight with weight+1, quantization annotations whose scale / zero point are
+// extra graph INPUTS (different values in every input set), and an unused model-local function.
+func OptionalFields(r *rng.R, e *Entry) {
+	m := e.Model
+	var floats []string
+	for _, in := range m.Inits {
+		if in.V != nil && in.V.DT == val.Float32 && len(in.V.Shape) > 0 {
+			floats = append(floats, in.Name)
+		}
+	}
+	if len(floats) == 0 {
+		return
+	}
+	w := floats[r.Intn(len(floats))]
+	switch r.Intn(3) {
+	case 0:
+		m.Training = append(m.Training, w)
+	case 1:
+		sc, zp := w+"_scale", w+"_zero_point"
+		m.Inputs = append(m.Inputs, mb.IO{Name: sc, DT: val.Float32, Shape: []int64{1}}, mb.IO{Name: zp, DT: val.Float32, Shape: []int64{1}})
+		m.Quant = append(m.Quant, mb.Quant{Tensor: w, Scale: sc, ZeroPoint: zp})
+		for i, set := range e.InputSets {
+			set[sc] = F32([]int{1}, []float32{0.5, 0.25, 2, 1}[(i+r.Intn(4))%4])
+			set[zp] = F32([]int{1}, []float32{0, 1, -3, 128}[(i+r.Intn(4))%4])
+		}
+	default:
+		m.Training = append(m.Training, w)
+		m.Functions = append(m.Functions, mb.Function{Name: "LocalF", Body: []string{"Relu", "LocalG"}}, mb.Function{Name: "LocalG", Body: []string{"Tanh"}})
+	}
+}
+
 // Reorder permutes what ONNX leaves unordered: the attributes of every node, the declarations of graph inputs,
 // outputs and initializers. (Node order is topological and stays.)
 func Reorder(r *rng.R, e *Entry) {
